@@ -66,7 +66,7 @@ def analyse(phi, energy, weights, du, acceptcorr, edges):
     from ixpeobssim.evt.kislat2015 import xStokesAnalysis as SA
     aeff, modf = irf(du)
     w = None if weights is None else numpy.array(weights, dtype=float)
-    q, u = SA.stokes_q(phi, w), SA.stokes_u(phi, w)
+    q, u = SA.stokes_q(phi), SA.stokes_u(phi, None)      # unweighted columns; the weights are passed separately, as xpbin does
     an = SA(q, u, numpy.array(energy, dtype=float), modf, aeff, 1000., None if w is None else w.copy(), acceptcorr)
     return an.polarization_table(numpy.array(edges), degrees=True)
 
